@@ -468,21 +468,28 @@ theorem C13_revolved_shapes (X Z H A B W r R : K) (harc : A ^ 2 + B ^ 2 = W ^ 2)
 
 /-! ## three-point arc -/
 
-/-- **Three-point arc (partial).**
+/-- **Three-point arc (partial).**  `circle_segment_from_three_points` is
+`circle_segment(θ, r, centre, w2, x0 − centre)` with the travel normal `w2 = (x0−x2)×(x1−x2)` (part 4).
 1. The centre returned by the linear solve of the model (`threePointCenter`, the system the code
-   hands to `np.linalg.solve`) is equidistant from the three points and lies in their plane
-   (`n = (x1−x0)×(x2−x0)`): it is the circumcentre, so that the arc `circle_segment(θ, r, centre, ·, x0−centre)`
-   starts at `x0` (by `C13_placement`) and lies on the circumcircle (by `C13_arc_on_circle`).
-2. End point: let `a = x0 − centre`, `b = x2 − centre` be orthogonal to the travel normal `n` with
+   hands to `np.linalg.solve`) is equidistant from the three points and lies in their plane: it is
+   the circumcentre, so that the arc starts at `x0` (by `C13_placement`, x-axis `x0 − centre`,
+   radius `‖x0 − centre‖`) and lies on the circumcircle (by `C13_arc_on_circle`).
+2. End point: let `a = x0 − centre`, `b = x2 − centre` be orthogonal to the normal `n` with
    `|a|² = |b|² = ρ²`, `L = ‖n‖`.  If the angle `(c, s)` has `c = a·b/ρ²` (the `arccos` argument),
    `s² = 1 − c²`, and the sign of `s` is chosen as the code's test does — `s ≥ 0` exactly when
    `(a×b)·n ≥ 0` (`θ` kept) and `s < 0` otherwise (`2π − θ`) — then rotating `a` by that angle
-   about `n/‖n‖` gives `b`: the arc about the travel normal ends at `x2`.
-*Missing for the full statement:* (i) that the arc passes through `x1` (an order statement on
-the angle of `x1`); (ii) the pinned code places the arc about `v0 × v1` instead of the travel
-normal `n` — the two differ in sign exactly when the arc from `x0` to `x1` exceeds a half turn,
-and then the real arc ends away from `x2` (genuine defect, found by the oracle); the model op
-used for correspondence follows the property (normal `n`). -/
+   about `n/‖n‖` gives `b`: the arc ends at `x2`.
+3. Through `x1`: if `x1 − centre` and `x2 − centre` are `a` rotated about `n/‖n‖` by the angles
+   `(c1, s1)` and `(c, s)` and `n` *is* the travel normal `(a − b)×(v1 − b)`, then
+   `(s1(1−c) + s(c1−1))·ρ² = L > 0`, and therefore the angle of `x1` lies strictly between `0` and
+   `θ` in the direction of travel: for `θ ≤ π` (`s ≥ 0`) `0 < s1` and `c < c1`; for `θ > π`
+   (`s < 0`) `0 ≤ s1` or `c1 < c`.
+*Missing for the full statement:* that every angle between `0` and `θ` is attained by a parameter
+value of the rational quadratic spans (surjectivity of the span parametrisation onto its angle
+range; an intermediate-value statement, checked by the oracle numerically).
+*Unfixed shape:* before the repair the arc was placed about `v0 × v1`; by part 2 applied to `x1`,
+`(v0×v1)·n = s1·ρ²·L`, so that normal is anti-parallel to the travel normal exactly when `s1 < 0`
+(the arc from `x0` to `x1` exceeds a half turn) and the arc then ended at `x2` mirrored in `v0`. -/
 theorem C13_three_points_partial :
     (∀ a1 a2 a3 b1 b2 b3 c1 c2 c3 x y z : K,
         threePointCenter [a1, a2, a3] [b1, b2, b3] [c1, c2, c3] = .ok [x, y, z] →
@@ -498,8 +505,41 @@ theorem C13_three_points_partial :
         (0 ≤ s ↔ 0 ≤ (a2 * b3 - a3 * b2) * n1 + (a3 * b1 - a1 * b3) * n2 + (a1 * b2 - a2 * b1) * n3) →
         c * a1 + s * ((n2 * a3 - n3 * a2) / L) = b1 ∧
         c * a2 + s * ((n3 * a1 - n1 * a3) / L) = b2 ∧
-        c * a3 + s * ((n1 * a2 - n2 * a1) / L) = b3) := by
-  refine ⟨?_, ?_⟩
+        c * a3 + s * ((n1 * a2 - n2 * a1) / L) = b3) ∧
+    (∀ a1 a2 a3 n1 n2 n3 ρ2 L c s c1 s1 : K,
+        a1 * n1 + a2 * n2 + a3 * n3 = 0 → ρ2 = a1 ^ 2 + a2 ^ 2 + a3 ^ 2 → 0 < ρ2 →
+        L ^ 2 = n1 ^ 2 + n2 ^ 2 + n3 ^ 2 → 0 < L → c ^ 2 + s ^ 2 = 1 → c1 ^ 2 + s1 ^ 2 = 1 →
+        -- b = c·a + s·(n×a)/L,  v1 = c1·a + s1·(n×a)/L,  n = (a − b) × (v1 − b)
+        n1 = ((a2 - (c * a2 + s * ((n3 * a1 - n1 * a3) / L))) * ((c1 * a3 + s1 * ((n1 * a2 - n2 * a1) / L)) - (c * a3 + s * ((n1 * a2 - n2 * a1) / L)))
+               - (a3 - (c * a3 + s * ((n1 * a2 - n2 * a1) / L))) * ((c1 * a2 + s1 * ((n3 * a1 - n1 * a3) / L)) - (c * a2 + s * ((n3 * a1 - n1 * a3) / L)))) →
+        n2 = ((a3 - (c * a3 + s * ((n1 * a2 - n2 * a1) / L))) * ((c1 * a1 + s1 * ((n2 * a3 - n3 * a2) / L)) - (c * a1 + s * ((n2 * a3 - n3 * a2) / L)))
+               - (a1 - (c * a1 + s * ((n2 * a3 - n3 * a2) / L))) * ((c1 * a3 + s1 * ((n1 * a2 - n2 * a1) / L)) - (c * a3 + s * ((n1 * a2 - n2 * a1) / L)))) →
+        n3 = ((a1 - (c * a1 + s * ((n2 * a3 - n3 * a2) / L))) * ((c1 * a2 + s1 * ((n3 * a1 - n1 * a3) / L)) - (c * a2 + s * ((n3 * a1 - n1 * a3) / L)))
+               - (a2 - (c * a2 + s * ((n3 * a1 - n1 * a3) / L))) * ((c1 * a1 + s1 * ((n2 * a3 - n3 * a2) / L)) - (c * a1 + s * ((n2 * a3 - n3 * a2) / L)))) →
+        (s1 * (1 - c) + s * (c1 - 1)) * ρ2 = L ∧
+        (0 ≤ s → 0 < s1 ∧ c < c1) ∧ (s < 0 → 0 ≤ s1 ∨ c1 < c)) ∧
+    (∀ (k : Consts K) (tol : K) (x0 x1 x2 : List K) (radius thS : K) (arcS : ArcAux K) (thL : K)
+        (arcL : ArcAux K) (aW : NAux K) (lamW : K) (d : ThreePt K),
+        threePointData tol x0 x1 x2 = .ok d →
+        threePoints k tol x0 x1 x2 radius thS arcS thL arcL aW lamW =
+          (circleSegment k (if d.keep then thS else thL) radius d.center d.w2 d.v0
+              (if d.keep then arcS else arcL) aW lamW).map
+            (fun res => res.setDimension (max x0.length (max x1.length x2.length)))) := by
+  refine ⟨?_, ?_, ?_, ?_⟩
+  rotate_left 2
+  · intro a1 a2 a3 n1 n2 n3 ρ2 L c s c1 s1 h0 hρ hρpos hL hLpos hcs hcs1 hn1 hn2 hn3
+    have hk := orient_of_travel_normal a1 a2 a3 n1 n2 n3 ρ2 L c s c1 s1 h0 hρ hL hLpos hn1 hn2 hn3
+    refine ⟨hk, ?_⟩
+    have hpos : 0 < s1 * (1 - c) + s * (c1 - 1) := by
+      by_contra hneg
+      have hle : s1 * (1 - c) + s * (c1 - 1) ≤ 0 := not_lt.mp hneg
+      have : (s1 * (1 - c) + s * (c1 - 1)) * ρ2 ≤ 0 := mul_nonpos_of_nonpos_of_nonneg hle (le_of_lt hρpos)
+      rw [hk] at this
+      exact absurd hLpos (not_lt.mpr this)
+    exact between_of_orient c s c1 s1 hcs hcs1 hpos
+  · intro k tol x0 x1 x2 radius thS arcS thL arcL aW lamW d hd
+    simp only [threePoints, hd, bind, Except.bind, pure, Except.pure]
+    by_cases hk : d.keep <;> simp [hk, Except.map]
   · intro a1 a2 a3 b1 b2 b3 c1 c2 c3 x y z h
     simp only [threePointCenter, sub3, cross3, List.zipWith, List.map, dot3, List.sum_cons, List.sum_nil] at h
     obtain ⟨e1, e2, e3⟩ := solve3_spec _ _ _ _ _ _ _ _ _ _ _ _ x y z h
